@@ -187,8 +187,8 @@ impl FreeList {
         // append the released free list pages
         to_push.extend(self.released_portions.drain(..));
 
-        let new_pages = self.preallocate(&mut to_push, bump);
-        let pages = self.push_and_encode(page_pool, &to_push, new_pages);
+        let (new_pages, head_untouched) = self.preallocate(&mut to_push, bump);
+        let pages = self.push_and_encode(page_pool, &to_push, new_pages, head_untouched);
 
         // preallocate pops, therefore, we must set it back.
         self.pop = false;
@@ -206,7 +206,7 @@ impl FreeList {
         &mut self,
         to_push: &mut Vec<PageNumber>,
         bump: &mut PageNumber,
-    ) -> Vec<PageNumber> {
+    ) -> (Vec<PageNumber>, bool) {
         let mut new_pages = Vec::new();
 
         // allocate a new page for rewriting the head (if any).
@@ -309,7 +309,12 @@ impl FreeList {
             i += MAX_PNS_PER_PAGE;
         }
 
-        new_pages
+        // a full portion which became the head because the portion above it was used up, and which
+        // was not prepared for a rewrite, still is what its page on disk holds. That page belongs
+        // to the previous state and must not be written to.
+        let head_untouched = new_full_portion && !self.portions.is_empty();
+
+        (new_pages, head_untouched)
     }
 
     fn push_and_encode(
@@ -317,9 +322,12 @@ impl FreeList {
         page_pool: &PagePool,
         to_push: &[PageNumber],
         new_pages: Vec<PageNumber>,
+        head_untouched: bool,
     ) -> Vec<(PageNumber, FatPage)> {
         let mut encoded = Vec::new();
         let mut new_pages = new_pages.into_iter().peekable();
+        // whether the head portion is identical to its page on disk.
+        let mut head_clean = head_untouched;
         for (i, pn) in to_push.iter().cloned().enumerate() {
             // the second condition is checking for the fragmentation described in the commit
             // doc comment. fragmentation can only occur in the second page and the head page
@@ -337,18 +345,23 @@ impl FreeList {
                 && i + 1 == to_push.len();
 
             if head_full || fragmentation {
-                encoded.extend(self.encode_head(page_pool));
+                if !head_clean {
+                    encoded.extend(self.encode_head(page_pool));
+                }
                 // UNWRAP: we've always allocated enough PNs for all appended PNs.
                 let new_head_pn = new_pages.next().unwrap();
                 self.portions.push((new_head_pn, Vec::new()));
             }
 
             self.push(pn);
+            head_clean = false;
         }
 
         assert!(new_pages.next().is_none());
 
-        encoded.extend(self.encode_head(page_pool));
+        if !head_clean {
+            encoded.extend(self.encode_head(page_pool));
+        }
         encoded
     }
 
